@@ -807,6 +807,7 @@ impl<'a, 'tcx> Own<'a, 'tcx> {
                     self.atom("arc", key.clone(), path);
                 }
                 if def.is_phantom_data() {
+                    // (inside std's own types PhantomData<T> marks logical ownership of a T behind a raw pointer: Box, Vec, Arc)
                     if let Some(a) = args.types().next() {
                         self.walk(a, path, depth + 1);
                     }
@@ -824,6 +825,13 @@ impl<'a, 'tcx> Own<'a, 'tcx> {
                     for f in &v.fields {
                         let fty = f.ty(tcx, args);
                         if local {
+                            // a PhantomData<T> field of one of the crate's own types holds no T at run time: nothing behind
+                            // it is kept alive by the value (a marker for a type parameter, not a raw-pointer owner)
+                            if let ty::Adt(fd, _) = fty.kind() {
+                                if fd.is_phantom_data() {
+                                    continue;
+                                }
+                            }
                             self.walk(fty, &format!("{path}/{short}.{}", f.name), depth + 1);
                         } else {
                             self.walk(fty, path, depth + 1);
